@@ -123,20 +123,29 @@ func keyUnit() harness.Unit {
 
 func keyLenUnit() harness.Unit {
 	return harness.Unit{Name: "keylen/0..64", Run: func(c *harness.Ctx) {
+		// every length with several fillings: a key is bytes, whatever they look like (zeros, all ones,
+		// ASCII hex digits in both cases, text)
+		fillers := []func(i int) byte{func(int) byte { return 0 }, func(int) byte { return 0xff }, func(i int) byte { return "0123456789abcdef"[i%16] }, func(i int) byte { return "FEDCBA9876543210"[i%16] }, func(i int) byte { return "key material!"[i%13] }}
 		for n := 0; n <= 64; n++ {
-			var blk cipher.Block
-			var err error
-			c.Add("evaluations", 1)
-			c.DistinctS("nontrivial", fmt.Sprint("len", n))
-			if c.Guard(fmt.Sprintf("newcipher-panic:len=%d", n), "NewCipher", nil, func() { blk, err = sm4.NewCipher(make([]byte, n)) }) {
-				continue
-			}
-			if n == 16 {
-				if err != nil || blk == nil || blk.BlockSize() != 16 {
-					c.Violate("newcipher-16", fmt.Sprintf("NewCipher(16 bytes) = %v, %v", blk, err), nil, nil)
+			for fi, f := range fillers {
+				key := make([]byte, n)
+				for i := range key {
+					key[i] = f(i)
 				}
-			} else if err == nil {
-				c.Violate(fmt.Sprintf("newcipher-accepts:len=%d", n), fmt.Sprintf("NewCipher accepted a %d-byte key", n), nil, nil)
+				var blk cipher.Block
+				var err error
+				c.Add("evaluations", 1)
+				c.DistinctS("nontrivial", fmt.Sprint("len", n, "/", fi))
+				if c.Guard(fmt.Sprintf("newcipher-panic:len=%d", n), "NewCipher", nil, func() { blk, err = sm4.NewCipher(key) }) {
+					continue
+				}
+				if n == 16 {
+					if err != nil || blk == nil || blk.BlockSize() != 16 {
+						c.Violate("newcipher-16", fmt.Sprintf("NewCipher(16 bytes) = %v, %v", blk, err), nil, nil)
+					}
+				} else if err == nil {
+					c.Violate(fmt.Sprintf("newcipher-accepts:len=%d", n), fmt.Sprintf("NewCipher accepted a %d-byte key (filling %d: %q...)", n, fi, key[:min(n, 8)]), nil, nil)
+				}
 			}
 		}
 		var err error
